@@ -1,3 +1,4 @@
+mod alloc;
 mod map;
 mod wal;
 use vcore::Args;
@@ -7,6 +8,7 @@ fn main() {
     match args.cmd().as_str() {
         "wal" => wal::main(&args),
         "map" => map::main(&args),
+        "alloc" => alloc::main(&args),
         "wal-images" => wal::images_main(&args),
         other => {
             eprintln!("unknown subcommand {other:?}");
